@@ -116,6 +116,17 @@ Definition step_spec (st : sdict) (o : op) : out * sdict :=
           match r with Some st' => (OutUnit, st') | None => (OutFail, st) end
       | _ => (OutFail, st)
       end
+  | OGetSteps k =>     (* one dotted string or step by step: the same reading *)
+      match spec_key k with
+      | Some p => match spec_get p st with Some n => (OutVal (node_val n), st) | None => (OutFail, st) end
+      | None => (OutFail, st)
+      end
+  | OEq v => (OutBool (py_eq (node_val (Branch st)) (unmark_val v)), st)   (* equality of the dictionaries *)
+  | OFromDict d =>
+      match spec_from_dict (unmark_val d) with
+      | Some st' => (OutUnit, st')
+      | None => (OutFail, st)
+      end
   end.
 
 Fixpoint run_spec (st : sdict) (ops : list op) : list (out * sdict) :=
